@@ -26,6 +26,7 @@ func init() {
 		c02R3(c, "C02.R3")
 		c02R4(c, "C02.R4")
 		c02R5(c, "C02.R5")
+		c02R6(c, "C02.R6")
 		c.importing = "C05"
 		c05R1(c, "C05.R1")
 		c05R2(c, "C05.R2")
@@ -33,6 +34,9 @@ func init() {
 		c05R4(c, "C05.R4")
 		c05R5(c, "C05.R5")
 		c05R6(c, "C05.R6")
+		// "a session with open streams keeps working": the receive path must not park with a session-wide lock held
+		c.importing = "C12"
+		nestedMonitorRules(c, "C12.R9", func(cl string) bool { return strings.HasPrefix(cl, "multiplex.") })
 		c.importing = ""
 	}
 }
